@@ -153,3 +153,49 @@ def mutations(text, ops=None):
             for other in ids:
                 if other != sid and other in ('ST', 'SE', 'GS', 'GE', 'HL', 'CLM', 'NM1', 'BHT', 'LX', 'IEA'):
                     yield ('retag-%s@%d:%s' % (other, i, sid), join_segments(d, segs[:i] + [other + segs[i][len(sid):]] + segs[i + 1:]))
+
+
+def envelope_docs(entries=None):
+    """properly nested documents with exactly one envelope discrepancy: a reused control number, a trailer whose
+    id or count is wrong -- at every header / trailer of 1x1x3 and 2x2x2 shaped documents"""
+    ents = entries or [e for e in one_entry_per_map() if e[4] in ('834.4010.X095.A1.xml', '835.5010.X221.A1.xml')]
+    for e in ents:
+        for shape in ({'sets': 3}, {'interchanges': 2, 'groups': 2, 'sets': 2}):
+            base = build_ok(e, shape)
+            if base is None:
+                continue
+            tag = '%dx%dx%d' % (shape.get('interchanges', 1), shape.get('groups', 1), shape.get('sets', 1))
+            prev = {}
+            for i, s in enumerate(base.segs):
+                k = s[0]
+                muts = []
+                if k in ('ISA', 'GS', 'ST'):
+                    pos = {'ISA': 13, 'GS': 6, 'ST': 2}[k]
+                    if k in prev:
+                        muts.append(('reuse-id', pos, base.segs[prev[k]][pos]))
+                    prev[k] = i
+                    if k == 'ISA':
+                        prev.pop('GS', None); prev.pop('ST', None)
+                    if k == 'GS':
+                        prev.pop('ST', None)
+                elif k in ('SE', 'GE', 'IEA'):
+                    muts.append(('wrong-id', 2, '9' + s[2][1:] if not s[2].startswith('9') else '8' + s[2][1:]))
+                    muts.append(('count+1', 1, str(int(s[1]) + 1)))
+                    muts.append(('count-1', 1, str(int(s[1]) - 1)))
+                    muts.append(('count-x', 1, 'x'))
+                for (name, pos, val) in muts:
+                    d = copy.deepcopy(base)
+                    d.segs[i][pos] = val
+                    if name == 'reuse-id':
+                        # keep the trailer consistent with its own header: the only discrepancy is the reuse
+                        want = {'ISA': 'IEA', 'GS': 'GE', 'ST': 'SE'}[k]
+                        depth = 0
+                        for j in range(i + 1, len(d.segs)):
+                            if d.segs[j][0] == k:
+                                depth += 1
+                            elif d.segs[j][0] == want:
+                                if depth == 0:
+                                    d.segs[j][2] = val
+                                    break
+                                depth -= 1
+                    yield ('envelope:%s:%s:%s@%d:%s' % (e[4], tag, name, i, k), d, {'entry': e, 'valid': False})
